@@ -174,6 +174,23 @@ Section C18_calls.
     exact (hhistory_spec check_table run_table step_ok C01_check_table_wf_C18 C01_run_table_wf_C18 1
              n p d h m 1%Z Hm Hr eq_refl eq_refl Hp Ha Hn Hms).
   Qed.
+
+  (* The same with calls on OTHER machine objects of the process interleaved arbitrarily (any
+     pipelines, accepted or refused, any number of scales, any `step` parameters there): the
+     calls made on object a, all with the accepted pipeline p, return what they return when
+     nothing is interleaved. *)
+  Variable mc_step_of : list step -> Z.
+  Theorem C18_rerun_same_result_any_interleaving : forall a n p d ops (w : world),
+    (forall o, In o ops -> w_mid o = a -> w_n o = n /\ w_p o = p) ->
+    clean (fst (w a)) -> (m_rdm (fst (w a)) = true -> has_kind Val p = true) -> snd (w a) = 1%Z ->
+    mc_step_of p = 1%Z ->
+    path_ok Begin p = Some d -> accept_b step_ok (has_kind Val p) p = true ->
+    (n >= 1)%nat -> ((n > 1)%nat -> has_kind Msc p = true) ->
+    whistory check_table run_table step_ok mc_step_of a w ops
+    = map (hexpected n p) (map w_call (filter (fun o => Z.eqb (w_mid o) a) ops)).
+  Proof.
+    exact (whistory_spec check_table run_table step_ok C01_check_table_wf_C18 C01_run_table_wf_C18 mc_step_of).
+  Qed.
 End C18_calls.
 
 (* Without the hypothesis on `step` the statement is false of the model: a machine that checked
@@ -246,6 +263,27 @@ Proof.
   intros i. destruct i as [|[|[|i]]]; reflexivity.
 Qed.
 
+(* Non-vacuity of the history theorems: a pipeline with validation and multiscale, two scales;
+   a world where object 7 checks and runs it while object 3 has another pipeline refused and
+   runs a third one in between. *)
+Definition ex_p : list step :=
+  [mkStep 0 (Some MC); mkStep 1 (Some Cvc); mkStep 2 (Some Dsp); mkStep 3 (Some Ref);
+   mkStep 4 (Some Val); mkStep 5 (Some Msc)].
+Definition ex_other : list step := [mkStep 0 (Some MC); mkStep 1 (Some Dsp); mkStep 2 (Some Flt)].
+Definition ex_bad : list step := [mkStep 0 (Some Dsp)].
+Definition ex_ops : list wop :=
+  [mkWop 7 HRun 2 ex_p; mkWop 3 HCheck 1 ex_bad; mkWop 7 HCheck 2 ex_p; mkWop 3 HRun 1 ex_other;
+   mkWop 7 HRun 2 ex_p; mkWop 3 HCheck 1 ex_other; mkWop 7 HRun 2 ex_p].
+Example C18_history_example_hyps :
+  path_ok Begin ex_p = Some DispMap /\ accept_b (fun _ _ => true) (has_kind Val ex_p) ex_p = true /\
+  has_kind Msc ex_p = true /\
+  whistory check_table run_table (fun _ _ => true) (fun p => if Nat.eqb (List.length p) 3 then 2%Z else 1%Z)
+           7 (fun _ => (machine0, 1%Z)) ex_ops
+  = [HRan (expected_trace ex_p 2 true) true 1%Z; HAccepted;
+     HRan (expected_trace ex_p 2 true) true 1%Z; HRan (expected_trace ex_p 2 true) true 1%Z] /\
+  List.length (cbs_of_trace trigger_callbacks (expected_trace ex_p 2 true)) = 13%nat.
+Proof. vm_compute. repeat split. Qed.
+
 (* The obligation is not vacuous: a shared accumulator  acc[0] += 1  is rejected by
    [race_free_b], and indeed a schedule exists that loses an update. *)
 Definition racy_nest : nest :=
@@ -284,5 +322,6 @@ Print Assumptions C18_persistent_attributes.
 Print Assumptions C18_shared_dicts_wf.
 Print Assumptions C18_run_products_history_free.
 Print Assumptions C18_rerun_same_trace_and_persistent_pair.
+Print Assumptions C18_rerun_same_result_any_interleaving.
 Print Assumptions C18_step_leaks_from_check_witness.
 Print Assumptions C18_shared_dict_history_free.
